@@ -35,5 +35,5 @@ Theorem C14_noop_sort_returns_self : forall t op, api_relation t -> apply_full (
 Proof. exact noop_sort_returns_self. Qed.
 
 Theorem C14_transfer_to_own_engine_returns_self : forall t,
-  api_relation t -> xfer_simplify (engine_of t) t = None -> transfer_e (engine_of t) t = Ok t.
+  api_relation t -> transfer_e (engine_of t) t = Ok t.
 Proof. exact transfer_to_own_engine_returns_self. Qed.
